@@ -6,6 +6,11 @@
   uninterpreted.
 -/
 import LibfiveProofs.ExprSound
+import LibfiveProofs.OptimizeSound
+import LibfiveProofs.WellArity
+import Mathlib.Data.Rat.Defs
+import Mathlib.Algebra.Order.Field.Rat
+import Mathlib.Tactic.NormNum
 
 namespace Libfive.C07
 open Libfive Expr
@@ -41,5 +46,93 @@ theorem apply_is_lexical_substitution (t : Expr C) (v : Nat) (value : Expr C) (e
     every node through the simplifying constructors) preserves the function. -/
 theorem flatten_sound (L : Lawful K I) (t : Expr C) (e : Env α) (hw : wellArity t) :
     denote I (flatten K t) e = denote I t e := Libfive.flatten_sound L t e hw
+
+open Libfive.Optimize
+
+/-- **optimize_sound.** The optimiser (affine accumulation and collapse, commutative lists with
+    sorting and de-duplication, common-subexpression merging by structural identity) preserves
+    the function — for every sorting order, every fuel, every lawful interpretation. -/
+theorem optimize_sound (L : LawfulOpt K I) (le : Expr C → Expr C → Bool) (t : Expr C) (e : Env α)
+    (hw : wellArity t) : denote I (optimize K le t) e = denote I t e :=
+  Libfive.Optimize.optimize_sound L le t e hw
+
+/-- **optimized_sound.** `Tree::optimized()` = flatten, then optimise. -/
+theorem optimized_sound (L : LawfulOpt K I) (le : Expr C → Expr C → Bool) (t : Expr C) (e : Env α)
+    (hw : wellArity t) : denote I (optimize K le (flatten K t)) e = denote I t e := by
+  rw [Libfive.Optimize.optimize_sound L le _ e (wellArity_flatten K t hw),
+    Libfive.flatten_sound L.toLawful t e hw]
+
+/-- **eq_sound.** Two trees that optimise to the same canonical tree (what `Tree::eq` tests)
+    denote the same function. -/
+theorem eq_sound (L : LawfulOpt K I) (le : Expr C → Expr C → Bool) (a b : Expr C)
+    (ha : wellArity a) (hb : wellArity b)
+    (h : optimize K le (flatten K a) = optimize K le (flatten K b)) (e : Env α) :
+    denote I a e = denote I b e := by
+  rw [← optimized_sound L le a e ha, ← optimized_sound L le b e hb, h]
+
+/-- **collapse_sound.** The tree rebuilt from an affine coefficient map denotes Σ cᵢ·tᵢ. -/
+theorem collapse_sound (L : LawfulOpt K I) (le : Expr C → Expr C → Bool) (m : AffMap C) (e : Env α) :
+    denote I (collapse K le m) e = evalAff I m e :=
+  Libfive.Optimize.collapse_sound L le m e
+
+/-! ### the hypotheses are satisfiable: exact rational arithmetic -/
+
+def Kq : ConstOps ℚ where
+  isZero c := c == 0
+  isOne c := c == 1
+  isNegOne c := c == -1
+  foldUn op c := match op with
+    | Op.neg => -c | Op.square => c * c | Op.abs => |c| | _ => 0
+  foldBin op a b := match op with
+    | Op.add => a + b | Op.sub => a - b | Op.mul => a * b | Op.div => a / b
+    | Op.min => min a b | Op.max => max a b
+    | Op.pow => if b = 1 then a else 0 | Op.nthRoot => if b = 1 then a else 0
+    | _ => 0
+  zero := 0
+  one := 1
+  lt a b := decide (a < b)
+  eqC a b := a == b
+  fma a b c := a * b + c
+
+def Iq : Interp ℚ ℚ where
+  const c := c
+  un := Kq.foldUn
+  bin := Kq.foldBin
+  orc _ _ _ _ := 0
+  bad := 0
+
+theorem Iq_lawful : LawfulOpt Kq Iq where
+  add _ _ := rfl
+  sub _ _ := rfl
+  mul _ _ := rfl
+  div _ _ := rfl
+  neg _ := rfl
+  square _ := rfl
+  min_self a := min_self a
+  max_self a := max_self a
+  abs_abs a := abs_abs a
+  abs_square a := abs_of_nonneg (mul_self_nonneg a)
+  pow_one a c h := by simp [Kq] at h; simp [Iq, Kq, h]
+  nthRoot_one a c h := by simp [Kq] at h; simp [Iq, Kq, h]
+  isZero c h := by simpa [Kq, Iq] using h
+  isOne c h := by simpa [Kq, Iq] using h
+  isNegOne c h := by simpa [Kq, Iq] using h
+  foldUn _ _ := rfl
+  foldBin _ _ _ := rfl
+  zero_val := rfl
+  one_val := rfl
+  eqC_sound a b h := by simpa [Kq, Iq] using h
+  fma_val _ _ _ := rfl
+  min_ac := ⟨fun a b => min_comm a b, fun a b c => min_assoc a b c⟩
+  max_ac := ⟨fun a b => max_comm a b, fun a b c => max_assoc a b c⟩
+
+-- a non-trivial instance: (2x + 3) + (2x − y) at x = 5, y = 1
+example :
+    denote Iq (optimize Kq (fun _ _ => true)
+      (bin Op.add (bin Op.add (bin Op.mul (const 2) x) (const 3)) (bin Op.sub (bin Op.mul (const 2) x) y)))
+      ⟨5, 1, 0, fun _ => 0⟩ = 22 := by
+  rw [optimize_sound Iq_lawful]
+  · simp [denote, Iq, Kq]; norm_num
+  · simp [wellArity, Op.args]
 
 end Libfive.C07
